@@ -1,4 +1,5 @@
 import PortusModel.Props.C07
+import PortusModel.Props.Tables
 #print axioms Portus.C07.encode_is_libccp
 #print axioms Portus.C07.libccp_create_decodes
 #print axioms Portus.C07.algSpec_of_name
@@ -7,3 +8,6 @@ import PortusModel.Props.C07
 #print axioms Portus.C07.decode_encode
 #print axioms Portus.C07.decode_concat
 #print axioms Portus.C07.check_model
+#print axioms Portus.Tables.src_msgTypes_eq
+#print axioms Portus.Tables.src_lengths_eq
+#print axioms Portus.Tables.msgtypes_shared_with_libccp
